@@ -388,6 +388,13 @@ def routeCostPts (g : Graph) : Option Pt → List Pt → Rat
     step + routeCostPts g (some p) (q :: rest)
   | _, _ => 0
 
+/-- the cost the property speaks of, for a polyline given by points (source first): every hop charged —
+    Manhattan length plus the bend penalty of `cost()` —, the last hop included -/
+def fullCostPts (g : Graph) : Option Pt → List Pt → Rat
+  | prev, p :: q :: rest =>
+    costPts g (AdaptaVerif.Model.Bends.manhattanDist p q) prev p q + fullCostPts g (some p) (q :: rest)
+  | _, _ => 0
+
 /-! ## Part 3: a decidable consistency check of the estimator on a concrete graph
 
 The hypotheses of `Props.C05AStar.search_optimal` for `g.problem`, checked exhaustively over the states
